@@ -254,6 +254,9 @@ func runC07(c *core.Ctx) {
 		if !c.Mine(i) {
 			continue
 		}
+		if c.Enough() {
+			break
+		}
 		id := fmt.Sprintf("g%d", i)
 		if !c.Case(id) {
 			continue
